@@ -359,8 +359,14 @@ fn delta_for_tx(
             }
         }
         crate::portfolio::TxActionSpecifics::Split(split_specs) => {
-            new_share_balance = pre_tx_status.share_balance
-                * split_specs.ratio.pre_to_post_factor().into();
+            // Multiply before dividing: with a factor that is not a finite
+            // decimal (1-for-3), balance * (post / pre) would turn 3 shares
+            // into 0.9999999999999999999999999999.
+            new_share_balance = GreaterEqualZeroDecimal::try_from(
+                *pre_tx_status.share_balance * *split_specs.ratio.post_split
+                    / *split_specs.ratio.pre_split,
+            )
+            .unwrap();
             let share_diff = *new_share_balance - *pre_tx_status.share_balance;
             // This erroring would be strange in practice. Only if the share balance
             // was already broken.
